@@ -54,4 +54,39 @@ theorem delete_layers_reverse (g : Graph.Adj Id) (h : Graph.KeysNodup g) {i : Na
     ∃ j, i < j ∧ Graph.InLayer (Graph.reverseSetList (Graph.sort g).1) j d :=
   CliUtils.Props.C14.reverse_edges_strict g h hv he
 
+/-- **the gate does not depend on the order of the related objects**: two lists with the same members pass or block together.
+(The library keeps the dependents of an object in the order their edges were added, and prune candidates come in Go
+map-iteration order of the stored inventory — unspecified; what IS specified, whether the delete goes out, is order-free.) -/
+theorem gate_order_independent (invalid : List Id) (mgr : Mgr Id) (strategy : Strategy) (dry : Bool) (l l' : List Id)
+    (h : ∀ x, x ∈ l ↔ x ∈ l') :
+    depFilter invalid mgr strategy dry l = .pass ↔ depFilter invalid mgr strategy dry l' = .pass := by
+  rw [depFilter_pass_iff, depFilter_pass_iff]
+  constructor
+  · intro hp b hb; exact hp b ((h b).mpr hb)
+  · intro hp b hb; exact hp b ((h b).mp hb)
+
+/-- when the gate blocks, the verdict reported is the verdict of one of the related objects that block (the first in the list) -/
+theorem blocked_verdict_is_a_blockers (invalid : List Id) (mgr : Mgr Id) (strategy : Strategy) (dry : Bool) (l : List Id)
+    (o : DepOutcome) (ho : depFilter invalid mgr strategy dry l = o) (hb : o ≠ .pass) :
+    ∃ b ∈ l, depRelation invalid mgr strategy dry b = o := by
+  induction l with
+  | nil => simp [depFilter] at ho; exact absurd ho.symm hb
+  | cons b bs ih =>
+    simp only [depFilter] at ho
+    cases hr : depRelation invalid mgr strategy dry b with
+    | pass =>
+      rw [hr] at ho
+      obtain ⟨c, hc, hco⟩ := ih ho
+      exact ⟨c, List.mem_cons_of_mem _ hc, hco⟩
+    | skip r => rw [hr] at ho; exact ⟨b, List.mem_cons_self, by rw [hr]; exact ho⟩
+    | fatal r => rw [hr] at ho; exact ⟨b, List.mem_cons_self, by rw [hr]; exact ho⟩
+
+/-- non-vacuity: one blocking relation of each kind; in either order the gate blocks, with the first one's verdict -/
+example :
+    let mgr : Mgr Id := [{ id := ⟨"ns", "y", "", "ConfigMap"⟩, strategy := .delete, actuation := .failed, reconcile := .pending }]
+    let x : Id := ⟨"ns", "x", "", "ConfigMap"⟩
+    let y : Id := ⟨"ns", "y", "", "ConfigMap"⟩
+    depFilter [x] mgr .delete false [x, y] ≠ .pass ∧ depFilter [x] mgr .delete false [y, x] ≠ .pass ∧
+    depFilter [x] mgr .delete false [x, y] ≠ depFilter [x] mgr .delete false [y, x] := by decide
+
 end CliUtils.Props.C05
